@@ -279,3 +279,136 @@ VARIANTS += [
              (C, '\t"path/filepath"\n', '\t"path/filepath"\n\t"strings"\n'),
              (C, SET_DOC, '// entryPath returns the path of the entry of url\nfunc (c *FileCache) entryPath(url string) string {\n\treturn filepath.Join(c.root, c.fileName(url))\n}\n\n' + SET_DOC)]),
 ]
+
+# ---- third pass: the guard for an absent list (and the wrapping of the error) moved from Get into the expiry function;
+# the function decides with a switch / nests the checks / collects the outcome in an error local
+CHECK_OLD = ('// checkExpiry returns nil when nextUpdate is bounded before current time\nfunc checkExpiry(ctx context.Context, nextUpdate time.Time) error {\n\tlogger := log.GetLogger(ctx)\n\n'
+             '\tif nextUpdate.IsZero() {\n\t\treturn errors.New("crl bundle retrieved from file cache does not contain valid NextUpdate")\n\t}\n'
+             '\tif time.Now().After(nextUpdate) {\n\t\tlogger.Debugf("CRL bundle retrieved from file cache has expired at %s", nextUpdate)\n\t\treturn corecrl.ErrCacheMiss\n\t}\n\treturn nil\n}')
+ZERO_ERR = 'errors.New("crl bundle retrieved from file cache does not contain valid NextUpdate")'
+def flat_calls(base='checkExpiry(logger, "BaseCRL", bundle.BaseCRL)', delta='checkExpiry(logger, "DeltaCRL", bundle.DeltaCRL)', base_stmt=None):
+    b = base_stmt if base_stmt is not None else '\tif err := %s; err != nil {\n\t\treturn nil, err\n\t}\n' % base
+    return b + '\tif err := %s; err != nil {\n\t\treturn nil, err\n\t}\n' % delta
+def check_switch(guard='list == nil', zero='err = ' + ZERO_ERR, miss='err = corecrl.ErrCacheMiss', verb='%w', after='time.Now().After(nextUpdate)'):
+    # the held-out shape: guard clause for the absent list, outcome in an error local, one wrapping return
+    return ('// checkExpiry returns nil when list is absent or not yet due\nfunc checkExpiry(logger log.Logger, name string, list *x509.RevocationList) error {\n'
+            '\tif ' + guard + ' {\n\t\treturn nil\n\t}\n\n\tvar err error\n\tnextUpdate := list.NextUpdate\n\tswitch {\n\tcase nextUpdate.IsZero():\n\t\t' + zero + '\n'
+            '\tcase ' + after + ':\n\t\tlogger.Debugf("CRL bundle retrieved from file cache has expired at %s", nextUpdate)\n\t\t' + miss + '\n\tdefault:\n\t\treturn nil\n\t}\n'
+            '\treturn fmt.Errorf("check %s expiry failed: ' + verb + '", name, err)\n}')
+def check_nested(after='time.Now().After(list.NextUpdate)', zero_ret='return ' + ZERO_ERR):
+    # the checks nested under `list != nil`, one `return nil` for "absent" and "fresh" alike; Get keeps the wrapping
+    return ('// checkExpiry returns nil when list is absent or not yet due\nfunc checkExpiry(ctx context.Context, list *x509.RevocationList) error {\n'
+            '\tif list != nil {\n\t\tif list.NextUpdate.IsZero() {\n\t\t\t' + zero_ret + '\n\t\t}\n'
+            '\t\tif ' + after + ' {\n\t\t\tlog.GetLogger(ctx).Debugf("CRL bundle retrieved from file cache has expired at %s", list.NextUpdate)\n\t\t\treturn corecrl.ErrCacheMiss\n\t\t}\n\t}\n\treturn nil\n}')
+NESTED_CALLS = ('\tif err := checkExpiry(ctx, bundle.BaseCRL); err != nil {\n\t\treturn nil, fmt.Errorf("check BaseCRL expiry failed: %w", err)\n\t}\n'
+                '\tif err := checkExpiry(ctx, bundle.DeltaCRL); err != nil {\n\t\treturn nil, fmt.Errorf("check DeltaCRL expiry failed: %w", err)\n\t}\n')
+def check_cases(miss='corecrl.ErrCacheMiss', helper_verb='%w'):
+    # the guard as the first case of the switch, one return per outcome, the wrapping in a helper of its own
+    return ('// expiryError names the list in the error\nfunc expiryError(name string, err error) error {\n\treturn fmt.Errorf("check %s expiry failed: ' + helper_verb + '", name, err)\n}\n\n'
+            '// checkExpiry returns nil when list is absent or not yet due\nfunc checkExpiry(logger log.Logger, name string, list *x509.RevocationList) error {\n'
+            '\tswitch {\n\tcase list == nil:\n\t\treturn nil\n\tcase list.NextUpdate.IsZero():\n\t\treturn expiryError(name, ' + ZERO_ERR + ')\n'
+            '\tcase time.Now().After(list.NextUpdate):\n\t\tlogger.Debugf("CRL bundle retrieved from file cache has expired at %s", list.NextUpdate)\n\t\treturn expiryError(name, ' + miss + ')\n\t}\n\treturn nil\n}')
+BASE_PARSE = '\tvar bundle corecrl.Bundle\n\tbundle.BaseCRL, err = x509.ParseRevocationList(content.BaseCRL)\n'
+DELTA_PARSE = '\tif content.DeltaCRL != nil {\n\t\tbundle.DeltaCRL, err = x509.ParseRevocationList(content.DeltaCRL)\n'
+VARIANTS += [
+ dict(name='benign-expiry-nil-guard-in-callee', expect='silent', edits=[(C, EXPIRY_OLD, flat_calls()), (C, CHECK_OLD, check_switch())],
+      why='every success of the function lies behind "the list is nil" or behind both checks of its NextUpdate; for the delta that is the obligation, for the base the list is the result of a parse whose error was tested nil and is read after it was stored; the value returned wraps (%w) a phi one arm of which is the sentinel, arriving only behind "now is after NextUpdate"'),
+ dict(name='benign-expiry-nil-guard-nested', expect='silent', edits=[(C, EXPIRY_OLD, NESTED_CALLS), (C, CHECK_OLD, check_nested())],
+      why='the same facts decided on paths: no return of nil is reachable once the edges "list is nil" and "check passed" are removed, although absent and fresh leave by the same return'),
+ dict(name='benign-expiry-nil-guard-switch-case-wrap-helper', expect='silent', edits=[(C, EXPIRY_OLD, flat_calls()), (C, CHECK_OLD, check_cases())],
+      why='the wrapping helper hands back its error parameter wrapped with %w on every return: what it returns for the sentinel still is the sentinel for errors.Is'),
+ dict(name='benign-expiry-nil-guard-sentinel-wrapped-in-place', expect='silent', edits=[(C, EXPIRY_OLD, flat_calls()), (C, CHECK_OLD, check_switch(miss='err = fmt.Errorf("%w: due at %s", corecrl.ErrCacheMiss, nextUpdate)'))]),
+ # the new shapes with the property broken
+ dict(name='nil-guard-base-call-fed-delta', expect='flagged(get/base-expiry)',
+      edits=[(C, EXPIRY_OLD, flat_calls(base='checkExpiry(logger, "BaseCRL", bundle.DeltaCRL)')), (C, CHECK_OLD, check_switch())]),
+ dict(name='nil-guard-base-result-ignored', expect='flagged(get/base-expiry)',
+      edits=[(C, EXPIRY_OLD, flat_calls(base_stmt='\t_ = checkExpiry(logger, "BaseCRL", bundle.BaseCRL)\n')), (C, CHECK_OLD, check_switch())]),
+ dict(name='nil-guard-base-checked-before-parsed', expect='flagged(get/base-expiry)',
+      edits=[(C, BASE_PARSE, '\tvar bundle corecrl.Bundle\n\tif err := checkExpiry(logger, "BaseCRL", bundle.BaseCRL); err != nil {\n\t\treturn nil, err\n\t}\n\tbundle.BaseCRL, err = x509.ParseRevocationList(content.BaseCRL)\n'),
+             (C, EXPIRY_OLD, flat_calls(base_stmt='')), (C, CHECK_OLD, check_switch())]),
+ dict(name='nil-guard-delta-checked-before-parsed', expect='flagged(get/delta-expiry)',
+      edits=[(C, DELTA_PARSE, '\tif err := checkExpiry(logger, "DeltaCRL", bundle.DeltaCRL); err != nil {\n\t\treturn nil, err\n\t}\n' + DELTA_PARSE),
+             (C, EXPIRY_OLD, '\tif err := checkExpiry(logger, "BaseCRL", bundle.BaseCRL); err != nil {\n\t\treturn nil, err\n\t}\n'), (C, CHECK_OLD, check_switch())]),
+ dict(name='delta-checked-before-parsed', file=C, expect='flagged(get/delta-expiry)',
+      find=DELTA_PARSE, replace='\tif bundle.DeltaCRL != nil {\n\t\tif err := checkExpiry(ctx, bundle.DeltaCRL.NextUpdate); err != nil {\n\t\t\treturn nil, fmt.Errorf("check DeltaCRL expiry failed: %w", err)\n\t\t}\n\t}\n' + DELTA_PARSE,
+      edits=[(C, EXPIRY_OLD, '\tif err := checkExpiry(ctx, bundle.BaseCRL.NextUpdate); err != nil {\n\t\treturn nil, fmt.Errorf("check BaseCRL expiry failed: %w", err)\n\t}\n')]),
+ dict(name='nil-guard-sentinel-not-wrapped', expect='flagged(expiry/expired-is-miss)', edits=[(C, EXPIRY_OLD, flat_calls()), (C, CHECK_OLD, check_switch(verb='%v'))]),
+ dict(name='nil-guard-wrap-verb-on-the-name', expect='flagged(expiry/expired-is-miss)',
+      edits=[(C, EXPIRY_OLD, flat_calls()), (C, CHECK_OLD, check_switch().replace('"check %s expiry failed: %w", name, err)', '"check %w expiry failed: %v", errors.New(name), err)'))]),
+ dict(name='nil-guard-expired-is-error', expect='flagged(expiry/expired-is-miss)', edits=[(C, EXPIRY_OLD, flat_calls()), (C, CHECK_OLD, check_switch(miss='err = errors.New("expired")'))]),
+ dict(name='nil-guard-zero-next-update-ok', expect='flagged(expiry/zero-next-update)', edits=[(C, EXPIRY_OLD, flat_calls()), (C, CHECK_OLD, check_switch(zero='return nil'))]),
+ dict(name='nil-guard-also-skips-delta', expect='flagged(expiry/)', edits=[(C, EXPIRY_OLD, flat_calls()), (C, CHECK_OLD, check_switch(guard='list == nil || name == "DeltaCRL"'))]),
+ dict(name='nil-guard-expiry-reversed', expect='flagged(expiry/)', edits=[(C, EXPIRY_OLD, flat_calls()), (C, CHECK_OLD, check_switch(after='time.Now().Before(nextUpdate)'))]),
+ dict(name='nil-guard-nested-expiry-reversed', expect='flagged(expiry/)', edits=[(C, EXPIRY_OLD, NESTED_CALLS), (C, CHECK_OLD, check_nested(after='list.NextUpdate.After(time.Now())'))]),
+ dict(name='nil-guard-nested-zero-only-logged', expect='flagged(expiry/zero-next-update)',
+      edits=[(C, EXPIRY_OLD, NESTED_CALLS), (C, CHECK_OLD, check_nested(zero_ret='log.GetLogger(ctx).Debugf("no NextUpdate")\n\t\t\treturn nil'))]),
+ dict(name='nil-guard-nested-base-call-fed-delta', expect='flagged(get/base-expiry)',
+      edits=[(C, EXPIRY_OLD, NESTED_CALLS.replace('checkExpiry(ctx, bundle.BaseCRL)', 'checkExpiry(ctx, bundle.DeltaCRL)')), (C, CHECK_OLD, check_nested())]),
+ dict(name='nil-guard-wrap-helper-drops-cause', expect='flagged(expiry/expired-is-miss)', edits=[(C, EXPIRY_OLD, flat_calls()), (C, CHECK_OLD, check_cases(helper_verb='%v'))]),
+ dict(name='nil-guard-wrap-helper-fed-other-error', expect='flagged(expiry/expired-is-miss)', edits=[(C, EXPIRY_OLD, flat_calls()), (C, CHECK_OLD, check_cases(miss='errors.New("expired")'))]),
+]
+
+# ---- third pass, same class in the sibling positions: the guard "no delta" moved into the helper that parses a stored
+# list (Get) / hands out the bytes of a list (Set); a parse helper called for both fields
+DELTA_BLOCK = ('\tif content.DeltaCRL != nil {\n\t\tbundle.DeltaCRL, err = x509.ParseRevocationList(content.DeltaCRL)\n\t\tif err != nil {\n'
+               '\t\t\treturn nil, fmt.Errorf("failed to parse delta CRL of file retrieved from file cache: %w", err)\n\t\t}\n\t}\n')
+def parse_optional(arg='content.DeltaCRL', guard='raw == nil', tail='\treturn x509.ParseRevocationList(raw)\n'):
+    return [(C, DELTA_BLOCK, '\tbundle.DeltaCRL, err = parseOptional(' + arg + ')\n\tif err != nil {\n\t\treturn nil, fmt.Errorf("failed to parse delta CRL of file retrieved from file cache: %w", err)\n\t}\n'),
+            (C, SET_DOC, '// parseOptional parses raw, if any\nfunc parseOptional(raw []byte) (*x509.RevocationList, error) {\n\tif ' + guard + ' {\n\t\treturn nil, nil\n\t}\n' + tail + '}\n\n' + SET_DOC)]
+BASE_BLOCK = '\tbundle.BaseCRL, err = x509.ParseRevocationList(content.BaseCRL)\n\tif err != nil {\n\t\treturn nil, fmt.Errorf("failed to parse base CRL of file retrieved from file cache: %w", err)\n\t}\n'
+def parse_both(base_stmt='\tbundle.BaseCRL, err = parseCRL(content.BaseCRL, "base")\n\tif err != nil {\n\t\treturn nil, err\n\t}\n', delta_arg='content.DeltaCRL'):
+    return [(C, BASE_BLOCK, base_stmt),
+            (C, DELTA_BLOCK, '\tif content.DeltaCRL != nil {\n\t\tif bundle.DeltaCRL, err = parseCRL(' + delta_arg + ', "delta"); err != nil {\n\t\t\treturn nil, err\n\t\t}\n\t}\n'),
+            (C, SET_DOC, '// parseCRL parses one stored list\nfunc parseCRL(raw []byte, what string) (*x509.RevocationList, error) {\n\tlist, err := x509.ParseRevocationList(raw)\n\tif err != nil {\n'
+                         '\t\treturn nil, fmt.Errorf("failed to parse %s CRL of file retrieved from file cache: %w", what, err)\n\t}\n\treturn list, nil\n}\n\n' + SET_DOC)]
+def raw_helper(arg='bundle.DeltaCRL', guard='list == nil', ret='list.Raw'):
+    return [(C, SET_OLD, '\tcontent := fileCacheContent{\n\t\tBaseCRL:  bundle.BaseCRL.Raw,\n\t\tDeltaCRL: rawOf(' + arg + '),\n\t}\n\tcontentBytes, err := json.Marshal(content)\n'),
+            (C, SET_DOC, '// rawOf returns the DER bytes of list, if any\nfunc rawOf(list *x509.RevocationList) []byte {\n\tif ' + guard + ' {\n\t\treturn nil\n\t}\n\treturn ' + ret + '\n}\n\n' + SET_DOC)]
+VARIANTS += [
+ dict(name='benign-get-parse-optional-helper', expect='silent', edits=parse_optional(),
+      why='the helper hands back nil only behind "the stored field is nil" and otherwise the result of the parse of its argument, which at this call is the entry field of the same name; the exit that forwards the parse reports success only if the parse did'),
+ dict(name='benign-get-parse-helper-for-both-fields', expect='silent', edits=parse_both(),
+      why='the helper is judged per call: what it parses is its parameter, replaced by the argument of each call'),
+ dict(name='parse-optional-fed-base-field', expect='flagged(pairing/get)', edits=parse_optional(arg='content.BaseCRL')),
+ dict(name='parse-optional-skips-short-delta', expect='flagged(get/delta-parse-error)', edits=parse_optional(guard='len(raw) < 64')),
+ dict(name='parse-optional-swallows-parse-error', expect='flagged(get/delta-parse-error)',
+      edits=parse_optional(tail='\tlist, err := x509.ParseRevocationList(raw)\n\tif err != nil {\n\t\treturn nil, nil\n\t}\n\treturn list, nil\n')),
+ dict(name='parse-helper-base-error-ignored', expect='flagged(get/base-parse-error)', edits=parse_both(base_stmt='\tbundle.BaseCRL, _ = parseCRL(content.BaseCRL, "base")\n')),
+ dict(name='parse-helper-delta-call-fed-base', expect='flagged(pairing/get)', edits=parse_both(delta_arg='content.BaseCRL')),
+ dict(name='benign-set-raw-helper', expect='silent', edits=raw_helper(),
+      why='what the helper hands back is nil only behind "the list is nil" and otherwise the Raw bytes of its argument, which at this call is the bundle field of the same name'),
+ dict(name='set-raw-helper-drops-large-delta', expect='flagged(set/delta-stored-when-present)', edits=raw_helper(guard='list == nil || len(list.Raw) > 1<<20')),
+ dict(name='set-raw-helper-fed-base', expect='flagged(pairing/set)', edits=raw_helper(arg='bundle.BaseCRL')),
+ dict(name='set-raw-helper-returns-tbs-bytes', expect='flagged(pairing/set)', edits=raw_helper(ret='list.RawTBSRevocationList')),
+ dict(name='locals-set-drops-large-delta', file=C, expect='flagged(set/delta-stored-when-present)', find=SET_OLD,
+      replace=set_locals().replace('if bundle.DeltaCRL != nil {', 'if bundle.DeltaCRL != nil && len(bundle.DeltaCRL.Raw) < 1<<20 {')),
+]
+
+# ---- third pass: standard-library equivalents of the clock comparison and of the not-exist test; the clock read by a predicate
+AFTER = '\tif time.Now().After(nextUpdate) {'
+def predicate(body='return time.Now().After(t)', use='expired(nextUpdate)'):
+    return [(C, CHECK_OLD, CHECK_OLD.replace('if time.Now().After(nextUpdate) {', 'if ' + use + ' {') + '\n\n// expired reports whether t has passed\nfunc expired(t time.Time) bool {\n\t' + body + '\n}')]
+VARIANTS += [
+ dict(name='benign-expiry-time-since', file=C, expect='silent', find=AFTER, replace='\tif time.Since(nextUpdate) > 0 {',
+      why='time.Since(t) is time.Now().Sub(t): positive exactly when now is after t'),
+ dict(name='benign-expiry-time-until', file=C, expect='silent', find=AFTER, replace='\tif time.Until(nextUpdate) < 0 {'),
+ dict(name='benign-expiry-compare', file=C, expect='silent', find=AFTER, replace='\tif nextUpdate.Compare(time.Now()) < 0 {'),
+ dict(name='benign-expiry-sub-constant-left', file=C, expect='silent', find=AFTER, replace='\tif 0 < time.Now().Sub(nextUpdate) {'),
+ dict(name='benign-expiry-clock-predicate', expect='silent', edits=predicate(),
+      why='the predicate answers true only behind "now is after its parameter"; on the edges of the checking function that fact reads with the parameter replaced by nextUpdate'),
+ dict(name='benign-expiry-clock-predicate-since', expect='silent', edits=predicate(body='return time.Since(t) > 0')),
+ dict(name='expiry-time-since-reversed', file=C, expect='flagged(expiry/)', find=AFTER, replace='\tif time.Since(nextUpdate) < 0 {'),
+ dict(name='expiry-time-until-reversed', file=C, expect='flagged(expiry/)', find=AFTER, replace='\tif time.Until(nextUpdate) > 0 {'),
+ dict(name='expiry-compare-reversed', file=C, expect='flagged(expiry/)', find=AFTER, replace='\tif time.Now().Compare(nextUpdate) < 0 {'),
+ dict(name='expiry-time-since-with-grace-period', file=C, expect='flagged(expiry/)', find=AFTER, replace='\tif time.Since(nextUpdate) > 24*time.Hour {'),
+ dict(name='expiry-time-since-this-update', expect='flagged(get/base-expiry)',
+      edits=[(C, AFTER, '\tif time.Since(nextUpdate) > 0 {'), (C, 'checkExpiry(ctx, bundle.BaseCRL.NextUpdate)', 'checkExpiry(ctx, bundle.BaseCRL.ThisUpdate.Add(24*time.Hour))')]),
+ dict(name='clock-predicate-reversed', expect='flagged(expiry/)', edits=predicate(body='return time.Now().Before(t)')),
+ dict(name='clock-predicate-fed-other-time', expect='flagged(expiry/)', edits=predicate(use='expired(nextUpdate.Add(24 * time.Hour))')),
+ dict(name='clock-predicate-never-expired-for-zero', expect='flagged(expiry/)', edits=predicate(body='return !t.IsZero() && time.Now().After(t.Add(time.Hour))')),
+ dict(name='benign-missing-os-isnotexist', expect='silent', edits=[(C, 'if errors.Is(err, fs.ErrNotExist) {', 'if os.IsNotExist(err) {'), (C, '\t"io/fs"\n', '')],
+      why='for the *PathError os.ReadFile returns os.IsNotExist and errors.Is(err, fs.ErrNotExist) agree'),
+ dict(name='missing-os-isexist-is-miss', expect='flagged(get/missing-is-miss)', edits=[(C, 'if errors.Is(err, fs.ErrNotExist) {', 'if os.IsExist(err) {'), (C, '\t"io/fs"\n', '')]),
+ dict(name='missing-is-plain-error', file=C, expect='flagged(get/missing-is-miss)', find='\t\t\treturn nil, corecrl.ErrCacheMiss\n\t\t}\n\t\treturn nil, fmt.Errorf("failed to get crl',
+      replace='\t\t\treturn nil, errors.New("no entry")\n\t\t}\n\t\treturn nil, fmt.Errorf("failed to get crl'),
+]
